@@ -18,6 +18,8 @@ class NormalLog:
     mode "zero":   returns zeros (noise-free trajectory, requests still logged)
     mode "count":  returns a tensor filled with the 1-based call number (exact integer noise ids)
     mode "real":   calls the real torch.normal
+    mode ("unit", k, j): the k-th call (1-based) returns zeros except ONE standard deviation at flat index j, every other call zeros –
+                   the response of a released quantity to each single Gaussian coordinate, i.e. the coefficient it enters with
     Every call is logged as (std, tuple(size), id(generator) or None)."""
 
     def __init__(self, mode="zero"):
@@ -31,7 +33,13 @@ class NormalLog:
         self.calls.append((float(std), tuple(size), None if generator is None else id(generator)))
         if self.mode == "real":
             return self._real(mean=mean, std=std, size=size, generator=generator, device=device, dtype=dtype, **kw)
-        v = 0.0 if self.mode == "zero" else float(len(self.calls))
+        if isinstance(self.mode, tuple) and self.mode[0] == "unit":
+            out = torch.zeros(tuple(size), dtype=dtype or torch.get_default_dtype(), device=device)
+            if len(self.calls) == self.mode[1]:
+                out.view(-1)[self.mode[2]] = float(std)
+            return out
+        else:
+            v = 0.0 if self.mode == "zero" else float(len(self.calls))
         return torch.full(tuple(size), v, dtype=dtype or torch.get_default_dtype(), device=device)
 
 
